@@ -225,6 +225,53 @@ func genC06(e *emitter, tier string, seed uint64) {
 				}
 			}
 		}
+		// ---- public-key encodings (STRICTENC polices them at every key a signature is tried against, not only the first)
+		if sh == 0 {
+			forms := func(k keyPair) [][]byte {
+				hy := append([]byte{}, k.pubU...)
+				hy[0] = 0x06 | (k.pubU[64] & 1)
+				hyBad := append([]byte{}, hy...)
+				hyBad[0] ^= 1
+				g33 := append([]byte{0x05}, k.pubC[1:]...)
+				offCurve := append([]byte{0x02}, make([]byte, 32)...)
+				offCurve[32] = 0x05
+				return [][]byte{k.pubC, k.pubU, hy, hyBad, g33, k.pubC[:32], {}, offCurve}
+			}
+			fsets := []int{fForkID, fForkID | fStrictEnc, fForkID | fStrictEnc | fNullFail, fAfterGenesis | fForkID | fStrictEnc, fAfterGenesis | fForkID}
+			for fi, pk := range forms(keys[0]) {
+				lock := append(rawPush(pk), 0xac)
+				sig := signFor(tx, idx, lock, sats, 0x41, keys[0], false)
+				for _, fl := range fsets {
+					note(fmt.Sprintf("checksig.keyform%d", fi), ixExecTx(e, fl, rawPush(sig), lock, tx, idx, sats))
+					ixExecTx(e, fl, rawPush(sig), append(append([]byte{}, lock...), 0x91), tx, idx, sats)
+				}
+			}
+			for n := 2; n <= 3; n++ {
+				all := [][][]byte{forms(keys[0]), forms(keys[1]), forms(keys[2])}
+				combos := 1
+				for i := 0; i < n; i++ {
+					combos *= len(all[i])
+				}
+				for code := 0; code < combos; code++ {
+					if quick && r.n(combos/48+1) != 0 {
+						continue
+					}
+					c := code
+					lock := []byte{0x51}
+					for i := 0; i < n; i++ {
+						lock = append(lock, rawPush(all[i][c%len(all[i])])...)
+						c /= len(all[i])
+					}
+					lock = append(append(lock, smallInt(n)...), 0xae)
+					signer := r.n(n)
+					unlock := append([]byte{0x00}, rawPush(signFor(tx, idx, lock, sats, 0x41, keys[signer], false))...)
+					for _, fl := range fsets {
+						note("multisig.keyforms", ixExecTx(e, fl, unlock, lock, tx, idx, sats))
+						ixExecTx(e, fl, unlock, append(append([]byte{}, lock...), 0x91), tx, idx, sats)
+					}
+				}
+			}
+		}
 		// ---- OP_CODESEPARATOR at every position of the locking script (executed and skipped)
 		k := keys[2]
 		body := [][]byte{{0x61}, append(rawPush([]byte{0xab, 0xab}), 0x75), {0x51, 0x75}, {0x61}}
